@@ -483,6 +483,9 @@ func (w *c07world) scanAnnotationLike() ([]c07AnnLike, error) {
 			}
 			for _, f := range p.files {
 				fname := p.fset.Position(f.Pos()).Filename
+				if strings.HasPrefix(filepath.Base(fname), "zz_verif_") {
+					continue // verification hooks (build tag verif) are not product code
+				}
 				// named constants (folded)
 				named := map[ast.Expr]bool{}
 				for _, dcl := range f.Decls {
